@@ -250,6 +250,9 @@ def run_job_inner(job: dict) -> dict:
             _KEEP_ALIVE.append(po)
             del _KEEP_ALIVE[:-40]
         GLOBAL_SHIFT[0] = float(job["task"].get("global_shift", 0.0))
+        if job.get("switchinterval"):
+            import sys as _sys
+            _sys.setswitchinterval(job["switchinterval"])        # thread mode under the finest scheduling the interpreter offers: a race window of a few bytecodes gets hit
         entry = next(e for e in registry() if e["name"] == job["opt"])
         cls, cfg = load(entry, **job.get("cfg", {}))
         if job.get("record"):
